@@ -1,4 +1,4 @@
-package props
+package c20
 
 import (
 	"encoding/json"
